@@ -446,7 +446,42 @@ def anchors():
             padded(raw[51], enc, (name, 51))
 
 
+def large_enumerate(tier, shard, nshards):
+    def gen():
+        for kind in ("transform", "recover", "execute", "sections", "procinj", "strings"):
+            for size in (300, 1500):
+                yield {"kind": kind, "size": size}
+
+    return shard_iter(gen(), shard, nshards)
+
+
+def large_execute(case, stats):
+    """Long programs / big arguments (tens of KiB) - the same oracles as the generated cases."""
+    n = case["size"]
+    kind = case["kind"]
+    w = {"terminator": True, "pad": 16, "before": True, "after": True}
+    if kind == "transform":
+        names = ["BASE64", "BASE64URL", "NETBIOS", "NETBIOSU", "MASK"]
+        steps = [("BUILD", "metadata")] + [(names[i % 5], True) if i % 3 else ("PREPEND", bytes([i & 0xFF]) * (i % 40)) for i in range(n)] + [("APPEND", b"Z" * min(20 * n, 20000)), ("HEADER", b"Cookie")]
+        transform_execute({"setting": 12, "steps": steps, "wrap": w}, stats)
+    elif kind == "recover":
+        names = ["base64", "netbios", "netbiosu", "base64url", "mask"]
+        steps = [("print", True)] + [(names[i % 5], True) if i % 2 else (("append", "prepend")[i % 4 // 2], i * 100003 % 2**32) for i in range(n)]
+        recover_execute({"steps": steps, "wrap": w}, stats)
+    elif kind == "execute":
+        entries = [("CreateThread_", b"mod%d.dll" % i, b"Func%d" % i, i * 37 % 65536) if i % 2 else "RtlCreateUserThread" for i in range(n)]
+        execute_execute({"entries": entries, "name_pad": 1 + n % 2, "wrap": w}, stats)
+    elif kind == "sections":
+        pairs = [(i * 4096 + 1, i * 4096 + 4000) for i in range(n)]
+        misc_execute({"pairs": pairs, "pad_pairs": 2, "frame": b"F" * min(n, 1000), "frame_setting": 58, "frame_pad": 16, "stub": bytes(16), "spawnto": bytes(16), "masked_wm": b"\x01" * 32, "bof": 1, "dns_idle": 0x7F000001, "wrap": w}, stats)
+    elif kind == "procinj":
+        pit_execute({"setting": 46, "prepend": b"\x90" * (10 * n), "append": b"\xcc" * (7 * n), "pad": 256, "wrap": w}, stats)
+    else:
+        strings_execute({"index": 8, "text": b"d.example.com,/u" * (n // 2), "tail": b"\x00" * 200, "der": b"\x30" + b"\x82" * 161, "der_pad": 94, "wmhash": b"hash" * 16, "wrap": w}, stats)
+
+
 SUBS = [
+    Sub("large_programs", large_execute, enumerate=large_enumerate, exhaustive=True),
     Sub("transform", transform_execute, strategy=transform_strategy, examples={"quick": 4800, "thorough": 96000}),
     Sub("recover", recover_execute, strategy=recover_strategy, examples={"quick": 3200, "thorough": 48000}),
     Sub("execute", execute_execute, strategy=execute_strategy, examples={"quick": 3200, "thorough": 48000}),
